@@ -30,10 +30,13 @@ fn c10_probe() {
 }
 unsafe fn gp_recvmsg(fd: RawFd, iovecs: &mut [libc::iovec], in_fds: &mut [RawFd]) -> vmm_sys_util::errno::Result<(usize, usize)> {
     c10_probe();
+    g::note_recv();
     g::ghost_recvmsg(fd, iovecs, in_fds)
 }
 fn gp_sendmsg<D: vmm_sys_util::sock_ctrl_msg::IntoIovec>(fd: RawFd, out_data: &[D], out_fds: &[RawFd]) -> vmm_sys_util::errno::Result<usize> {
     c10_probe();
+    // SAFETY: single-threaded harness
+    unsafe { g::note_send() };
     g::ghost_sendmsg(fd, out_data, out_fds)
 }
 /// error paths of this proxy build their message with format!: formatting is not the subject
@@ -165,6 +168,7 @@ fn e_gpu(op: u32, class: usize) {
         }
         assert!(!g::G.lent_closed, "C09: lent descriptor closed");
         assert!(!LOCK_FREE_AT_SYSCALL.0, "C10: gpu proxy lock free during a socket call of the transaction");
+        assert!(!g::G.lock_retaken, "C10: the gpu proxy lock was released and taken again between a request and the reading of its reply");
         assert!((*NODE_PTR.0).try_lock().is_ok(), "C10: gpu proxy lock released on return");
     }
     kani::cover!(wit, "witness");
@@ -176,6 +180,7 @@ macro_rules! e_gp {
         #[kani::unwind(5)]
         #[kani::stub(vmm_sys_util::sock_ctrl_msg::raw_recvmsg, gp_recvmsg)]
         #[kani::stub(vmm_sys_util::sock_ctrl_msg::raw_sendmsg, gp_sendmsg)]
+        #[kani::stub(std::sync::Mutex::lock, g::ghost_mutex_lock)]
         #[kani::stub(libc::close, g::ghost_close)]
         #[kani::stub(<std::os::fd::OwnedFd as std::ops::Drop>::drop, g::ghost_ownedfd_drop)]
         #[kani::stub(std::alloc::handle_alloc_error, g::ghost_alloc_error)]
@@ -200,3 +205,15 @@ e_gp!(e_gp_dmabuf_scanout, 9, 0);
 e_gp!(e_gp_dmabuf_scanout2, 12, 0);
 // @harness props=C01,C10 tier=thorough reach=off timeout=500 bound="GpuBackend::update_scanout: all fields, 8 payload bytes" stubs="raw_recvmsg/raw_sendmsg (+lock probe), close, OwnedFd::drop, handle_alloc_error, fmt::format"
 e_gp!(e_gp_update, 8, 0);
+// @harness props=C01,C03,C06,C10 tier=quick reach=off timeout=900 mem=24 bound="GpuBackend::get_protocol_features: conformant reply, value and 0..=1 descriptors symbolic" stubs="raw_recvmsg/raw_sendmsg (+lock probe), Mutex::lock (acquisition counter, self-deadlock detector), close, OwnedFd::drop, handle_alloc_error, fmt::format"
+e_gp!(e_gp_get_protocol_features, 1, 0);
+// @harness props=C06,C10 tier=quick reach=off timeout=900 mem=24 bound="GpuBackend::get_protocol_features answered with another request's code, value and 0..=1 descriptors symbolic" stubs="raw_recvmsg/raw_sendmsg (+lock probe), Mutex::lock (acquisition counter, self-deadlock detector), close, OwnedFd::drop, handle_alloc_error, fmt::format"
+e_gp!(e_gp_get_protocol_features_foreign, 1, 1);
+// @harness props=C06,C10 tier=thorough reach=off timeout=900 mem=24 bound="GpuBackend::get_protocol_features answered without the REPLY flag" stubs="raw_recvmsg/raw_sendmsg (+lock probe), Mutex::lock (acquisition counter, self-deadlock detector), close, OwnedFd::drop, handle_alloc_error, fmt::format"
+e_gp!(e_gp_get_protocol_features_noreply, 1, 2);
+// @harness props=C06,C10 tier=thorough reach=off timeout=900 mem=24 bound="GpuBackend::get_protocol_features answered with an undefined flag bit" stubs="raw_recvmsg/raw_sendmsg (+lock probe), Mutex::lock (acquisition counter, self-deadlock detector), close, OwnedFd::drop, handle_alloc_error, fmt::format"
+e_gp!(e_gp_get_protocol_features_badflag, 1, 3);
+// @harness props=C01,C06,C10 tier=quick reach=off timeout=900 mem=24 bound="GpuBackend::update_dmabuf_scanout (empty ack reply): all five u32 fields, 0..=1 descriptors on the reply" stubs="raw_recvmsg/raw_sendmsg (+lock probe), Mutex::lock (acquisition counter, self-deadlock detector), close, OwnedFd::drop, handle_alloc_error, fmt::format"
+e_gp!(e_gp_dmabuf_update, 10, 0);
+// @harness props=C06,C10 tier=thorough reach=off timeout=900 mem=24 bound="GpuBackend::update_dmabuf_scanout answered with another request's code" stubs="raw_recvmsg/raw_sendmsg (+lock probe), Mutex::lock (acquisition counter, self-deadlock detector), close, OwnedFd::drop, handle_alloc_error, fmt::format"
+e_gp!(e_gp_dmabuf_update_foreign, 10, 1);
